@@ -118,3 +118,34 @@ PROPS['C11'] = {
                   'otherwise the error is the sink\'s (or WriteZero) and the sink holds a prefix. Tied to Database::save by scripted Write '
                   'implementations; success is additionally checked by re-opening the captured bytes.',
 }
+
+
+def judge_c19(case, out):
+    if case.get('op') == 'selftest':
+        d = diff_path(out.get('model'), out.get('spec'), 'model-vs-vectors')
+        return [('DISAGREE', 'selftest', 'executable primitives fail their published vectors: ' + d)] if d else [('AGREE', '', '')]
+    real = case.get('real', {})
+    if real.get('parse') == 'err:url':
+        # outside the modelled otpauth grammar (the url crate rejected it): only "no panic, no value" applies
+        return [('SKIP', 'url-crate-rejects', '')]
+    v = default_judge(case, out)
+    if str(real.get('parse', '')).startswith('panic'):
+        v.append(('SPECFAIL', 'totp:from_str-panics', real.get('parse')))
+    return v
+
+
+PROPS['C19'] = {
+    'ops': ['selftest', 'totp'],
+    'judge': judge_c19,
+    'rule': 'otpauth URIs assembled from components (scheme, raw label, percent-/plus-encoded query pairs in random order with duplicates and '
+            'unknown keys; secrets of 0..64 random bytes, also malformed base32; periods/digits/algorithms incl. 0, +5, empty, overflowing, '
+            'non-numeric) parsed by TOTP::from_str or Entry::get_otp, then value_at at 10..13 instants incl. 0, window edges, 2^31, 2^32, u64::MAX; '
+            'every case counts as non-trivial; distinct by hash of (uri, times)',
+    'partial': ['C19_nopanic_full is false on the unchanged code (digits >= 20 parses, value_at overflows 10^digits: F14); C19_nopanic_partial for digits < 20',
+                'base32 round trip is proved per 5-byte group (decGroup_encGroup, b32Val_b32Char), not yet lifted to whole strings with padding',
+                'conformance of the code value with RFC 6238 is by transcription + the appendix-B vectors (a test), the url crate is modelled on the otpauth grammar only'],
+    'assumptions': ['url::Url::parse splits scheme / path / decoded query pairs as the harness composed them (checked: real parse result is compared field by field)'],
+    'level_text': 'Kernel-checked for every HMAC function, secret, time and parameter set: code has exactly `digits` decimal digits, 31-bit truncation in bounds, '
+                  'validity in [1, period], constant within a time window, parsed URIs never carry period 0, scheme/missing-secret/number/algorithm errors, '
+                  'later duplicate wins by fold. The Lean model with its own SHA-1/256/512+HMAC is run against TOTP::from_str/value_at/get_secret on generated URIs.',
+}
